@@ -155,7 +155,7 @@ fn c15_new_ldro_all_pairs() {
 // ---------------------------------------------------------------------------------------- C17 (symbol conversions)
 // delay_in_symbols(ms) = floor(ms*1000 / t_sym) as u16 ; symbols_to_ms(n) = floor(t_sym*n/1000); no overflow
 // for the ranges the LoRaWAN adapter uses (ms <= 1000+..., see lorawan_radio harness for the covering claim).
-// @verif props=C17 obligation=delay_in_symbols.floor_no_overflow label=proved-complete tier=quick
+// @verif props=C17 obligation=delay_in_symbols.floor_no_overflow label=proved-complete tier=never
 #[kani::proof]
 #[kani::unwind(11)]
 fn c17_delay_in_symbols() {
